@@ -138,8 +138,12 @@ def _valid(node, decls, want):
         if how == 0 and is_literal(node[1]):
             return False
         return True
-    if t == "nsub" or t == "nadd":
+    if t == "nadd":
         return len(node[1]) >= 1
+    if t == "nsub":
+        # a one-operand SUB node is not well formed: the Sugar dialect spells it "(- x)", which is
+        # unary minus, while the z3 translation folds it to x; the DSL itself never builds it
+        return len(node[1]) >= 2
     if t == "sum":
         # Python's sum(): 0 + x0 + x1 ...; needs the first item to be an Expr or all literal is
         # evaluated by Python itself -> require at least one non literal in first two
@@ -441,7 +445,7 @@ class Gen:
                     y = self.nonlit(y, "I")
             return [k, x, y, r.randint(0, 2)]
         if k in ("nadd", "nsub"):
-            n = r.choice([1, 2, 3, 3, 4])
+            n = r.choice([1, 2, 3, 3, 4]) if k == "nadd" else r.choice([2, 2, 3, 3, 4])
             parts = self.splitn(budget - 1, n)
             return [k, [self.gen_i(p, True) for p in parts]]
         if k == "sum":
@@ -517,6 +521,25 @@ class Gen:
                 sizes.append(self.leaf_i(True))
         borders = [self.gen_b(1, True) for _ in edges]
         return ["gdiv", n, edges, sizes, borders]
+
+
+def gen_witness(rng, decls):
+    return [rng.random() < 0.5 if d["t"] == "b" else rng.randint(d["lo"], d["hi"]) for d in decls]
+
+
+def gen_constraint(rng, g, budget, witness=None, allow_lit=False):
+    """A boolean AST; if a witness assignment is given the constraint is made true under it."""
+    c = g.gen_b(budget, allow_lit=allow_lit)
+    if witness is not None and len(witness) == len(g.decls):
+        try:
+            ok = compile_one(c)(tuple(witness))
+        except Exception:
+            return c
+        if not ok:
+            if is_literal(c):
+                return ["T"] if allow_lit else g.leaf_b(False)
+            c = ["not", c, 0]
+    return c
 
 
 def gen_decls(rng, max_vars=8, cap=4096, allow_wide=True, min_vars=1):
